@@ -150,4 +150,16 @@ def asmShapeOk (r : OptRow) (t : CoreFun) : Bool :=
   | .opfunction op .nil => t.words == [op.toNat + 1 * 2 ^ 24, Op.return.toNat]
   | _ => true
 
+/-- a nil fast path of `if` / `while` (specials.c): the head must be an equality-family comparator row whose sense matches the
+    jump that leaves the then-branch / the loop: `(= nil x)` stays while `x` is nil (leave with jump-if-not-nil), `(not= nil x)`
+    stays while `x` is not nil (leave with jump-if-nil) -/
+def nilPathOk (p : String × String × Op) : Bool :=
+  match optimizers.find? (fun r => r.tagName == p.2.1) with
+  | some r =>
+    match r.handler with
+    | .compreduce op _ inv =>
+      (kindOf op == .eq && inv == false && p.2.2 == .jumpIfNotNil) || (kindOf op == .neq && inv == true && p.2.2 == .jumpIfNil)
+    | _ => false
+  | none => false
+
 end JanetModel.Spec
